@@ -361,13 +361,63 @@ func Run(o *drv.Out) {
 				o.Nontrivial(fmt.Sprintf("%d|%s|%s", ci, op, res))
 			}
 		}
-		tail(0, 1, uint64(2+r.Intn(3)))
+		// LoadRootChainInfo(chain, h): what the root chain publishes to nested chains after each commit — the
+	// committee of height h (0 = latest) and the committee of the height before it
+	rootInfo := func(chain, h uint64) {
+		res := drv.Recover(func() string {
+			info, e := sm.LoadRootChainInfo(chain, h)
+			if e != nil {
+				return fmt.Sprintf("err:%d", e.Code())
+			}
+			show := func(cv *lib.ConsensusValidators) string {
+				vs, e := lib.NewValidatorSet(cv, false)
+				return showSet(vs, e)
+			}
+			return "cur " + show(info.ValidatorSet) + " last " + show(info.LastValidatorSet)
+		})
+		op := fmt.Sprintf("rootinfo %d %d", h, chain)
+		o.Op(op, res)
+		o.Count("op:rootinfo")
+		hh := h
+		if hh == 0 || hh > heightNow {
+			hh = heightNow
+		}
+		last := uint64(1)
+		if hh != 1 {
+			last = hh - 1
+		}
+		want := func(at uint64) string {
+			sn := snaps[at]
+			var w []string
+			for _, v := range refMembers(sn.vals, chain, sn.capV, false) {
+				w = append(w, fmt.Sprintf("%s:%d", drv.Hex(v.PublicKey), v.StakedAmount))
+			}
+			return "members=" + strings.Join(w, ",")
+		}
+		if parts := strings.SplitN(res, " last ", 2); len(parts) == 2 && strings.HasPrefix(parts[0], "cur ") {
+			okCur := strings.HasPrefix(parts[0], "cur err:") || strings.HasSuffix(parts[0], want(hh))
+			okLast := strings.HasPrefix(parts[1], "err:") || strings.HasSuffix(parts[1], want(last))
+			if !okCur || !okLast {
+				o.Fail("C13:root-chain-info-committee-differs", fmt.Sprintf("LoadRootChainInfo(%d,%d): ValidatorSet / LastValidatorSet differ from the committees of heights %d / %d at the time of commit", chain, h, hh, last),
+					map[string]any{"case": ci, "op": op, "got": res, "want_cur": want(hh), "want_last": want(last)})
+			}
+		}
+		o.Nontrivial(fmt.Sprintf("%d|%s|%s", ci, op, res))
+	}
+	tail(0, 1, uint64(2+r.Intn(3)))
 		tail(1, 0, 0)
 		tail(0, 1, 1)
 		tail(1, 0, 0)
 		tail(0, uint64(1+r.Intn(3)), 0)
 		tail(1, 0, 0)
 		tail(0, 1, uint64(1+r.Intn(2)))
+		for c := uint64(1); c <= 3; c++ {
+			rootInfo(c, 0) // "latest", right after a block that changed the committee
+			rootInfo(c, heightNow)
+			if heightNow > 2 {
+				rootInfo(c, uint64(1+r.Intn(int(heightNow))))
+			}
+		}
 		for h := uint64(1); h <= heightNow; h++ {
 			for c := uint64(0); c <= 3; c++ {
 				if h+3 >= heightNow || r.Intn(3) == 0 {
